@@ -19,7 +19,7 @@ EXPLANATION = (
     "destination pixels, and leave the statement's fill value elsewhere -- also in chunks built as constants."
 )
 ASSUMPTIONS = [
-    "GDAL enters only as a recorded call: nearest-neighbour = the source pixel containing the image of the destination pixel centre under the transforms handed over; destination initialised with dst_nodata, else src_nodata, else 0 (rasterio.warp.reproject with init_dest_nodata=True, read from its source); replayed with real GDAL and real dask",
+    "GDAL enters only as a recorded call: nearest-neighbour = the source pixel containing the image of the destination pixel centre under the transforms handed over; destination initialised with dst_nodata, else src_nodata, else 0 (rasterio.warp.reproject with init_dest_nodata=True, read from its source); a valid source value equal to the dst_nodata handed over is moved to the neighbouring value (GDAL's AvoidNoData), so both routes must hand over the same one; replayed with real GDAL and real dask",
     "same CRS, relative scale from a grid (1, 2, 3, 1/2, 3/2, mirrored or not), translation, image sizes, chunk sizes and the probed pixel symbolic; quick tier factors the axes (one axis symbolic, the other a single identical chunk)",
     "source: 1..3 chunks along the symbolic axis (regular with a symbolic remainder, or irregular with symbolic sizes), destination: 1..2 chunks; one optional leading band axis of 2 planes in one or two chunks",
     "pixel types that reach GDAL unchanged (uint8, int16, float32, float64); the int8/bool detours are obligation P6 of C10",
@@ -74,6 +74,22 @@ class _FakeSrc:
         return _keys("src", tuple(len(c) for c in self.chunks))
 
 
+class _WarpNP:
+    """numpy as odc.geo.warp sees it: the real module, except that array-reshaping helpers accept
+    the recording arrays (view-or-copy rule of numpy kept, see npmodel.MovedView)"""
+
+    def __getattr__(self, k):
+        import numpy as real_np
+
+        return getattr(real_np, k)
+
+    @staticmethod
+    def moveaxis(a, source, destination):
+        from ..npmodel import NP
+
+        return NP.moveaxis(a, source, destination)
+
+
 def _np13():
     from .. import npmodel
 
@@ -107,6 +123,7 @@ def setup():
     dk.da = _FakeDa
     dk.HighLevelGraph = _FakeHLG
     shims.instrument(warp, names=["isinstance"], scan=False)
+    warp.np = _WarpNP()
 
 
 NODATA = {
@@ -145,6 +162,14 @@ def _init_value(kw):
     if kw.get("src_nodata") is not None:
         return kw["src_nodata"]
     return 0
+
+
+def _nudged(kw):
+    """the value GDAL's warp kernel moves a *valid* source pixel away from: the destination nodata
+    it was given (gdalwarpkernel AvoidNoData: a result equal to it becomes the neighbouring value);
+    NaN never equals a pixel"""
+    v = kw.get("dst_nodata")
+    return None if v is None or v != v else v
 
 
 def _src_coord(kw, lx, ly):
@@ -233,6 +258,8 @@ def h_chunked(k, mx, fam, c_src, n_src, n_dst, axis, extra, dtype, nodata, dchun
         data = (real_np.arange(n).reshape(shape) % 200 + 1).astype(dtype)
         if sn is not None:
             data[..., ::2, 1::3] = sn  # missing pixels in the source: the warper turns them into the destination nodata
+        if not dtype.startswith("float"):
+            data[..., 1::2, ::3] = 0  # zero is a pixel value like any other
         ref = real_np.empty(dst_full_shape, dtype=dtype)
         warp.rio_reproject(data, ref, src_g, dst_g, "nearest", src_nodata=sn, dst_nodata=dn, ydim=ydim)
         dd = da.from_array(data, chunks=full_chunks)
@@ -349,6 +376,7 @@ def h_chunked(k, mx, fam, c_src, n_src, n_dst, axis, extra, dtype, nodata, dchun
             prove("warp_writes_a_whole_plane", all(r == slice(None) for r in roi[ydim:]) and len(roi) == len(res.shape))
         prove("same_source_nodata_on_both_routes", _same_value(c_kw.get("src_nodata"), r_kw.get("src_nodata")))
         prove("same_resampling_on_both_routes", c_kw.get("resampling") == r_kw.get("resampling"))
+        prove("a_valid_pixel_equal_to_the_destination_nodata_is_treated_alike_on_both_routes", _same_value(_nudged(c_kw), _nudged(r_kw)))
         prove("same_crs_on_both_routes", c_kw.get("src_crs") == r_kw.get("src_crs") and c_kw.get("dst_crs") == r_kw.get("dst_crs"))
         prove("unreached_pixel_of_a_warped_chunk_holds_the_fill_value", _same_value(_init_value(c_kw), want), when=Not(inside))
         extras_c = {k_: v for k_, v in c_kw.items() if k_ not in ("src_transform", "dst_transform", "gcps", "src_crs", "dst_crs", "resampling", "src_nodata", "dst_nodata")}
@@ -707,6 +735,90 @@ def h_graph_names(vary):
 
 
 # ---- V1: fill value ---------------------------------------------------------------------------
+# ---- V6: the in-memory route over arrays with more than two dimensions ---------------------------
+LAYOUTS = {
+    # name: (axes before y, axes after x, ydim argument)
+    "tyx": ((2,), (), 1),
+    "tyx_default": ((2,), (), None),
+    "yxb": ((), (3,), 0),
+    "tyxb": ((2,), (3,), 1),
+    "abyx": ((2, 3), (), None),
+    "tyxb1": ((2,), (1,), 1),
+    "t1yxb": ((1,), (3,), 1),
+}
+
+
+def h_in_memory_planes(layout, dtype="int16"):
+    """rio_reproject(src, dst, ...) on N-d arrays: every 2-D plane of the caller's source is warped
+    once into the same plane of the caller's destination, with the same grids and options"""
+    import numpy as real_np
+
+    import odc.geo.warp as warp
+
+    before, after, ydim = LAYOUTS[layout]
+    yd = len(before)
+    Hs, Ws, Hd, Wd = Int("Hs", 1, 4096), Int("Ws", 1, 4096), Int("Hd", 1, 4096), Int("Wd", 1, 4096)
+    t, o = Real("t"), Real("o")
+    from affine import Affine
+
+    import odc.geo.geobox as gbx
+
+    src_g = gbx.GeoBox((Hs, Ws), Affine(rconst(10), 0.0, o, 0.0, rconst(-10), rconst(500)), "epsg:3857")
+    dst_g = gbx.GeoBox((Hd, Wd), Affine(rconst(20), 0.0, o + 10 * t, 0.0, rconst(-20), rconst(480)), "epsg:3857")
+    sn, dn = NODATA[dtype] if dtype in NODATA else (None, None)
+    if symx.concrete_mode():
+        shape_s, shape_d = (*before, Hs, Ws, *after), (*before, Hd, Wd, *after)
+        n = 1
+        for v in shape_s:
+            n *= v
+        data = (real_np.arange(n).reshape(shape_s) * 7 % 199 + 1).astype(dtype)
+        out = real_np.empty(shape_d, dtype=dtype)
+        out[...] = 77
+        got = warp.rio_reproject(data, out, src_g, dst_g, "nearest", src_nodata=sn, dst_nodata=dn, ydim=ydim)
+        prove("returns_the_callers_destination", got is out)
+        ok = True
+        for idx in real_np.ndindex(*before, *after):
+            roi = (*idx[:yd], slice(None), slice(None), *idx[yd:])
+            ref = real_np.empty((Hd, Wd), dtype=dtype)
+            warp.rio_reproject(real_np.ascontiguousarray(data[roi]), ref, src_g, dst_g, "nearest", src_nodata=sn, dst_nodata=dn)
+            ok = ok and bool(real_np.array_equal(out[roi], ref))
+        prove("every_plane_of_the_destination_is_the_warp_of_the_same_plane_of_the_source", ok)
+        return
+    from ..npmodel import FakeBlock, RecArray, RecView
+
+    src = FakeBlock("whole", (*before, Hs, Ws, *after), dtype)
+    dst = RecArray((*before, Hd, Wd, *after), None, real_np.dtype(dtype))
+    calls = []
+    real_reproject = warp.rasterio.warp.reproject
+
+    def fake_reproject(src_, dst_, **kw):
+        calls.append((src_, dst_, kw))
+
+    warp.rasterio.warp.reproject = fake_reproject
+    try:
+        got = warp.rio_reproject(src, dst, src_g, dst_g, "nearest", src_nodata=sn, dst_nodata=dn, ydim=ydim)
+    finally:
+        warp.rasterio.warp.reproject = real_reproject
+    prove("returns_the_callers_destination", got is dst)
+    planes = list(real_np.ndindex(*before, *after))
+    prove("one_warp_per_plane", len(calls) == len(planes))
+
+    def _roi_of(v):
+        r = v.roi if isinstance(v.roi, tuple) else (v.roi,)
+        return tuple(int(x) if isinstance(x, (int, real_np.integer)) else x for x in r)
+
+    for idx in planes:
+        roi = (*idx[:yd], slice(None), slice(None), *idx[yd:])
+        mine = [c for c in calls if isinstance(c[1], RecView) and _roi_of(c[1]) == roi]
+        prove(f"plane{list(idx)}_warped_once_into_its_place", len(mine) == 1)
+        if len(mine) != 1:
+            continue
+        c_src, c_dst, kw = mine[0]
+        prove(f"plane{list(idx)}_lands_in_the_callers_destination", c_dst.base is dst)
+        prove(f"plane{list(idx)}_reads_the_same_plane_of_the_callers_source", isinstance(c_src, RecView) and (c_src.base is src or getattr(c_src.base, "copy_of", None) is src) and _roi_of(c_src) == roi)
+        prove(f"plane{list(idx)}_grids_and_nodata", kw.get("src_transform") == src_g.transform and kw.get("dst_transform") == dst_g.transform and _same_value(kw.get("src_nodata"), sn) and _same_value(kw.get("dst_nodata"), dn))
+
+
 def h_fill_value(dtype):
     import numpy as real_np
 
@@ -782,6 +894,10 @@ OBLIGATIONS = [
     Ob("V4_graph_names", h_graph_names, fixed(*[dict(vary=v) for v in ("dst_nodata", "src_nodata", "both_nodata", "resampling", "chunks", "grid")]),
        descr="two requests on the same source that differ in nodata, resampling, destination chunking or destination grid never share task keys",
        functions=("odc.geo._dask._dask_rio_reproject",), bounds="offset between the grids symbolic (fixed sizes); the differing parameter from a list", stubs=("dask.base.tokenize replaced by an injective stand-in", "dask.array.Array / HighLevelGraph recorders"), setup=setup),
+    Ob("V6_in_memory_planes", h_in_memory_planes, fixed(*[dict(layout=l) for l in LAYOUTS]),
+       descr="the whole-array route over arrays with more than two dimensions (axes before y, after x, or both; ydim given or defaulted): every 2-D plane of the caller's source is warped once into the same plane of the caller's destination (no plane lands in a temporary), same grids and nodata for every plane; replay against plane-by-plane 2-D reprojection with real GDAL",
+       functions=("odc.geo.warp.rio_reproject", "odc.geo.warp._rio_reproject"), bounds="image sizes 1..4096 symbolic; extra axes of length 1..3 from a list of layouts; relative offset symbolic",
+       stubs=("rasterio.warp.reproject recorder", "recording arrays (indexing, moveaxis/reshape with numpy's view-or-copy rule)"), setup=setup, timeout_ms=20000),
     Ob("V2_chunked_equals_whole", h_chunked, lambda tier, rng: _grid(tier),
        descr="for a symbolic destination pixel the chunked route and the whole-array route sample the same source pixel, reach a source pixel for the same pixels, and leave the same (the statement's) fill value elsewhere; graph shape, keys, chunk table",
        **V2),
